@@ -9,7 +9,7 @@
    list, [hp_of] the handlerPair a handler stands for.  Proofs/GenAgreeC04Handle.v proves that
    the engine's `handle` methods (translated from the source) applied to such a list compute
    what [run_value] / [run_stream] compute on the sequence.  Definitions only. *)
-From Eino Require Import Base.Util Model.Paradigm Model.StreamOps Model.StreamGenLib
+From Eino Require Import Base.Util Model.Paradigm Model.StreamOps Model.C04GenLib
   Model.ParadigmProg Model.ParadigmSpec.
 
 Inductive hspec : Type :=
@@ -30,3 +30,38 @@ Fixpoint handlers_sprog (hs : list hspec) : sprog :=
   | [] => SId
   | h :: r => SSeq (sprog_of_h h) (handlers_sprog r)
   end.
+
+(* ---------------------------------------------------------------- mappings with nested paths *)
+(* FromFieldPath / ToFieldPath / MapFieldPaths over maps (compose/field_mapping.go: fieldMap walks
+   the source path with takeOne step by step, assignOne builds the target path) as the sequence of
+   the one-step mappings they are made of: step into the source map field by field ([FTake a true]),
+   put the value found under the innermost target field ([FTo [(last, y)]]), then that map under
+   the next field outwards ([FTo [(None, x)]]), ...  The harness prints a path mapping as this
+   sequence; every theorem about [prog]s covers it.  (Chunk-wise the implementation maps a chunk
+   that lacks the source path to the empty map and the sequence to {x: {}}: the same up to
+   concatenation, so the exact chunk lists of such graphs are not compared.) *)
+Fixpoint seq_of (l : list sprog) : sprog :=
+  match l with
+  | [] => SId
+  | [s] => s
+  | s :: r => SSeq s (seq_of r)
+  end.
+
+Definition path_sprog (from to : list N) (take_map : bool) : sprog :=
+  let steps_in := map (fun a => SMap (FTake a true)) (removelast from) in
+  let lastf := last (map Some from) None in
+  match rev to with
+  | [] => seq_of (steps_in ++ match lastf with Some a => [SMap (FTake a take_map)] | None => [] end)
+  | y :: outer =>
+      seq_of (steps_in ++ SMap (FTo [(lastf, y)]) :: map (fun x => SMap (FTo [(None, x)])) outer)
+  end.
+
+(* a Stream-native map producer in two chunks under the output key 0 ({aa: {ac: …, ad: …}}),
+   MapFieldPaths aa.ac -> af.ag, a Collect-native node that renders its input; next to it
+   ToFieldPath ah.ai of a chunk-by-chunk string transformer; the two fan in *)
+Definition paths_prog : sprog :=
+  SSeq (SPar [SSeq (SNode (sw_outkey 0) 1 (spec_simple 2 "n1" 2 3 false true false false 1 false))
+                   (path_sprog [0%N; 2%N] [5%N; 6%N] false);
+              SSeq (SNode sw_none 2 (spec_simple 0 "n2" 0 0 false false false true 3 true))
+                   (path_sprog [] [7%N; 8%N] false)])
+       (SNode sw_none 3 (spec_simple 1 "n3" 0 0 false false true false 0 false)).
